@@ -382,6 +382,52 @@ func (*schemafier) hashAttribute(att *expr.AttributeExpr, h hash.Hash64) uint64 
 }
 
 func hashAttribute(att *expr.AttributeExpr, h hash.Hash64, seen map[string]*uint64) *uint64 {
+	res := hashAttributeType(att, h, seen)
+	// Two attributes of structurally equivalent types that carry different
+	// validations must not share one schema: the schema states the
+	// validations.
+	if key := validationKey(att.Validation); key != "" {
+		combined := orderedHash(*res, hashString(key, h), h)
+		return &combined
+	}
+	return res
+}
+
+// validationKey returns a string that identifies the validations of an
+// attribute other than the required attributes (which hashAttributeType takes
+// into account for objects), the empty string if there is none.
+func validationKey(v *expr.ValidationExpr) string {
+	if v == nil {
+		return ""
+	}
+	var b strings.Builder
+	if len(v.Values) > 0 {
+		fmt.Fprintf(&b, "enum:%#v;", v.Values)
+	}
+	if v.Format != "" {
+		fmt.Fprintf(&b, "format:%s;", v.Format)
+	}
+	if v.Pattern != "" {
+		fmt.Fprintf(&b, "pattern:%q;", v.Pattern)
+	}
+	for _, f := range []struct {
+		name string
+		val  *float64
+	}{{"exclMin", v.ExclusiveMinimum}, {"min", v.Minimum}, {"exclMax", v.ExclusiveMaximum}, {"max", v.Maximum}} {
+		if f.val != nil {
+			fmt.Fprintf(&b, "%s:%v;", f.name, *f.val)
+		}
+	}
+	if v.MinLength != nil {
+		fmt.Fprintf(&b, "minLength:%d;", *v.MinLength)
+	}
+	if v.MaxLength != nil {
+		fmt.Fprintf(&b, "maxLength:%d;", *v.MaxLength)
+	}
+	return b.String()
+}
+
+func hashAttributeType(att *expr.AttributeExpr, h hash.Hash64, seen map[string]*uint64) *uint64 {
 	t := att.Type
 	if h, ok := seen[t.Hash()]; ok {
 		return h
